@@ -334,12 +334,12 @@ Proof.
     destruct (IH l eq_refl) as [K S]. split; [unfold keys in *; cbn [map fst]; now rewrite K|]. intros n0 r0 [E0|E0]; [inversion E0; subst; assumption | now apply S].
 Qed.
 
-Lemma sub_spec ats h o h2 o2 e :
-  wf h o -> substructure ats h o = Ok (h2, o2, e) ->
+Lemma sub_spec_g rh ats h o h2 o2 e :
+  wf h o -> substructure_g rh ats h o = Ok (h2, o2, e) ->
   exists h1 sub0, hext h h1 /\ inv1 h1 sub0 /\ o_cache sub0 = [] /\ o_backup sub0 = None /\ o_changed sub0 = None /\
-    (forall r, In r (arefs (o_adj sub0)) -> h_next h <= r) /\ (fix_structure ;; fix_stereo) h1 sub0 = (h2, o2, e).
+    (forall r, In r (arefs (o_adj sub0)) -> h_next h <= r) /\ sub_finish rh h1 sub0 = (h2, o2, e).
 Proof.
-  intros Wf H. unfold substructure in H. destruct ats as [|a0 ats']; [discriminate|].
+  intros Wf H. unfold substructure_g in H. destruct ats as [|a0 ats']; [discriminate|].
   destruct (negb (subset_z (a0 :: ats') (keys (o_atoms o)))); [discriminate|].
   set (sel := filter (fun n => zmem n (a0 :: ats')) (keys (o_atoms o))) in *.
   unfold sub_rows in H. destruct (rows_of (o_adj o) sel) as [rows|] eqn:Er; [|discriminate].
@@ -349,7 +349,8 @@ Proof.
   assert (forall n, In n (keys rows) -> zmem n sel = true) as Kp by (intros n Hn; apply zmem_In; now rewrite <- Kr).
   assert (forall n r m rf, In (n, r) rows -> In (m, rf) r -> zmem m sel = true -> In m (keys rows)) as Cl
     by (intros n r m rf _ _ Hm; rewrite Kr; now apply zmem_In).
-  set (sa := map (fun n => (n, match zget (o_atoms o) n with Some a => mkA (a_core a) None None | None => mkA (mkCore 0 None 0 false) None None end)) sel) in *.
+  set (sa := map (fun n => (n, match zget (o_atoms o) n with Some a => mkA (a_core a) (if rh then None else a_hyd a) None
+                                                        | None => mkA (mkCore 0 None 0 false) None None end)) sel) in *.
   exists h1, (mkM sa sb [] None None None None).
   assert (keys sa = keys rows) as Ks. { rewrite Kr. unfold sa, keys. rewrite map_map. cbn. apply map_id. }
   split; [eapply (gcopy_hext (fun m => zmem m sel) fsub h (o_adj o) Wnd Wsym Wlt rows); eauto|].
@@ -358,6 +359,41 @@ Proof.
   - intros l Hl. discriminate.
   - split; [reflexivity|]. split; [reflexivity|]. split; [reflexivity|]. split; [|inversion H; reflexivity].
     intros r. cbn [o_adj]. eapply (gcopy_fresh (fun m => zmem m sel) fsub h (o_adj o) Wnd Wsym Wlt rows); eauto.
+Qed.
+
+Lemma sub_spec ats h o h2 o2 e :
+  wf h o -> substructure ats h o = Ok (h2, o2, e) ->
+  exists h1 sub0, hext h h1 /\ inv1 h1 sub0 /\ o_cache sub0 = [] /\ o_backup sub0 = None /\ o_changed sub0 = None /\
+    (forall r, In r (arefs (o_adj sub0)) -> h_next h <= r) /\ (fix_structure ;; fix_stereo) h1 sub0 = (h2, o2, e).
+Proof. exact (sub_spec_g true ats h o h2 o2 e). Qed.
+Lemma sub_finish_good rh : good1 (sub_finish rh).
+Proof.
+  destruct rh; [apply fix_both_good|]. unfold sub_finish. apply good1_seq; [|apply fix_stereo_good].
+  apply good1_seq; [apply calc_labels_good | apply set_changed_none_good].
+Qed.
+Lemma sub_finish_kc rh : kc (sub_finish rh).
+Proof.
+  destruct rh; [apply kc_fix_both|]. unfold sub_finish. apply kc_seq; [|apply kc_read].
+  apply kk_seq; [apply kk_calc_labels | apply kk_set_changed].
+Qed.
+
+(* one substructure (with or without recalculation of the hydrogens) added to the live molecules *)
+Lemma W_sub_g rh ats h o others h2 o2 e :
+  W (mkS h o others) -> substructure_g rh ats h o = Ok (h2, o2, e) ->
+  hext h h2 /\ (e = None -> W (mkS h2 o (o2 :: others))).
+Proof.
+  intros Ws E. pose proof (W_cur _ Ws) as Uc. cbn [s_heap s_cur] in Uc.
+  destruct (sub_spec_g _ _ _ _ _ _ _ (proj1 (proj1 Uc)) E) as [h1 [sub0 [X [I0 [C0 [B0 [_ [Fr R]]]]]]]].
+  pose proof (sub_finish_good rh h1 sub0 I0) as G. pose proof (sub_finish_kc rh h1 sub0 (K2_nil _ _ C0)) as K. rewrite R in G, K.
+  destruct G as [I2 [HL [Un [Rf Bk]]]].
+  assert (hext h h2) as X2.
+  { destruct X as [L E1]. split; [destruct HL; lia|]. intros r Hr. rewrite Un; [apply E1; exact Hr | lia |].
+    intros Hi. apply Fr in Hi. lia. }
+  split; [exact X2|]. intros ->.
+  assert (forall r, In r (arefs (o_adj o2)) -> h_next h <= r) as Fr2.
+  { intros r Hr. apply Rf in Hr. destruct Hr as [Hr|Hr]; [now apply Fr | destruct X; lia]. }
+  apply (W_add h h2 o others o2 Ws X2); [| congruence | exact Fr2].
+  split; [exact I2|]. split; [now apply Coh_CohFC | intros _; exact K].
 Qed.
 
 Lemma W_step_sub ats s : W s ->
